@@ -953,19 +953,58 @@ pub struct Case {
     pub user_fields: Vec<Vec<String>>,
     pub matrix_text: String,
     pub user_csv: String,
+    /// a second user lexicon for the same system lexicon: loaded behind the first one its words are in dictionary 2
+    pub user2: Option<Lex>,
+    pub user2_fields: Vec<Vec<String>>,
+    pub user2_csv: String,
     pub time: u64,
     pub descr: String,
 }
+/// references from user words to user words of the same lexicon, DIFFERENT ones in split A, split B and word structure:
+/// these are what LexiconSet re-stamps, field by field, when the dictionary is not the first user dictionary
+pub fn add_user_refs(lex: &mut Lex, rng: &mut Rng, sink: &mut Sink) {
+    let n = lex.rows.len() as u32;
+    for (i, row) in lex.rows.iter_mut().enumerate() {
+        let i = i as u32;
+        let splittable = row.mode.trim() != "A" && row.mode.trim() != "a";
+        if splittable && rng.chance(2, 3) {
+            if row.split_a.len() < 126 {
+                row.split_a.push(Ref::User((i + 1) % n));
+            }
+            if row.split_b.len() < 126 && rng.chance(3, 4) {
+                row.split_b.push(Ref::User((i + 2) % n));
+                if rng.chance(1, 2) {
+                    row.split_b.push(Ref::Sys(0));
+                }
+            }
+            sink.tag("user2_row_with_user_refs_in_splits");
+        }
+        if rng.chance(1, 2) && row.word_structure.len() < 126 {
+            row.word_structure.push(Ref::User((i + 3) % n));
+            sink.tag("user2_row_with_user_ref_in_word_structure");
+        }
+    }
+}
+
 pub fn gen_case(rng: &mut Rng, sink: &mut Sink, want_user: bool, big: bool, findings: bool) -> Case {
     let pool = gen_pos_pool(rng, sink);
     let matrix = gen_matrix(rng);
     let ids = matrix.nl.min(matrix.nr) as i16;
     let sys = gen_lex(rng, sink, &pool, None, ids, big && !want_user, false);
     let user = if want_user { Some(gen_lex(rng, sink, &pool, Some(&sys), ids, big, findings)) } else { None };
+    let user2 = if want_user {
+        let mut l = gen_lex(rng, sink, &pool, Some(&sys), ids, false, false);
+        add_user_refs(&mut l, rng, sink);
+        Some(l)
+    } else {
+        None
+    };
     let sys_fields = render_fields(&sys, &pool, rng, sink);
     let sys_csv = csv_of_fields(&sys_fields);
     let user_fields = user.as_ref().map(|u| render_fields(u, &pool, rng, sink)).unwrap_or_default();
     let user_csv = csv_of_fields(&user_fields);
+    let user2_fields = user2.as_ref().map(|u| render_fields(u, &pool, rng, sink)).unwrap_or_default();
+    let user2_csv = csv_of_fields(&user2_fields);
     let matrix_text = render_matrix(&matrix, rng);
     let descr = match rng.below(4) {
         0 => String::new(),
@@ -973,7 +1012,7 @@ pub fn gen_case(rng: &mut Rng, sink: &mut Sink, want_user: bool, big: bool, find
         2 => "説明 💞 description".to_string(),
         _ => gen_short(rng),
     };
-    Case { pool, sys, matrix, user, sys_csv, sys_fields, user_fields, matrix_text, user_csv, time: rng.below(1 << 40), descr }
+    Case { pool, sys, matrix, user, sys_csv, sys_fields, user_fields, matrix_text, user_csv, user2, user2_fields, user2_csv, time: rng.below(1 << 40), descr }
 }
 
 fn version_of(user: bool) -> u64 {
@@ -1093,6 +1132,12 @@ pub fn run_case(sink: &mut Sink, c: &Case, desc: Value, verbose: bool) {
             }
         }
         Some(user) => {
+            let stack_desc = {
+                let mut d = desc.clone();
+                d["stack"] = json!(2);
+                d["user2_csv"] = json!(if c.user2_csv.len() < 1500 { c.user2_csv.clone() } else { format!("{} bytes", c.user2_csv.len()) });
+                d
+            };
             let uexp = match expect(user, &c.pool, Some((&c.sys, &sys_exp))) {
                 Some(e) => e,
                 None => return,
@@ -1201,7 +1246,102 @@ pub fn run_case(sink: &mut Sink, c: &Case, desc: Value, verbose: bool) {
                     KNOWN_USER_DICFORM,
                 );
             }
+            // the same system dictionary with BOTH user dictionaries: the rows of the second one are read back as
+            // dictionary 2 (POS ids re-based behind the POS the first one added; U-references of split A, split B and
+            // word structure re-stamped to 2, each field by its own rule)
+            if let Some(u2) = &c.user2 {
+                run_stack_case(sink, c, user, &uexp, u2, &loaded, &sys_bytes, &sys_exp, &ub, nsys, stack_desc, verbose);
+            }
         }
+    }
+}
+
+#[allow(clippy::too_many_arguments)]
+fn run_stack_case(
+    sink: &mut Sink,
+    c: &Case,
+    user: &Lex,
+    uexp: &Expected,
+    u2: &Lex,
+    loaded: &LoadedDictionary,
+    sys_bytes: &[u8],
+    sys_exp: &Expected,
+    ub: &[u8],
+    nsys: usize,
+    desc: Value,
+    verbose: bool,
+) {
+    let e2 = match expect(u2, &c.pool, Some((&c.sys, sys_exp))) {
+        Some(e) => e,
+        None => return,
+    };
+    let ub2 = match compile_user(loaded, &c.user2_csv, c.time, &c.descr) {
+        Ok(b) => b,
+        Err(e) => {
+            let id = sink.case_rust_only(desc, false);
+            sink.fail(id, &format!("valid second user lexicon rejected by the compiler: {}", e), "");
+            return;
+        }
+    };
+    let jd = match load_with_user(sys_bytes.to_vec(), vec![ub.to_vec(), ub2.clone()]) {
+        Ok(d) => d,
+        Err(e) => {
+            let id = sink.case_rust_only(desc, false);
+            sink.fail(id, &format!("system dictionary with two user dictionaries does not load: {}", e), "");
+            return;
+        }
+    };
+    let rbs = readback(&jd, 2, u2.rows.len());
+    // POS added by this dictionary are reported behind those the first user dictionary added
+    let shift = uexp.new_pos.len() as u16;
+    let expd: Vec<Readback> = expected_rb(u2, &e2, 2)
+        .into_iter()
+        .map(|r| match r {
+            Readback::Ok { surface, hwlen, pos, norm, dfwi, dicform, reading, a, b, ws, syn, params } => {
+                Readback::Ok { surface, hwlen, pos: if pos as usize >= nsys { pos + shift } else { pos }, norm, dfwi, dicform, reading, a, b, ws, syn, params }
+            }
+            x => x,
+        })
+        .collect();
+    let mut bad: Option<String> = None;
+    let nwords = jd.lexicon().size() as usize;
+    if nwords != c.sys.rows.len() + user.rows.len() + u2.rows.len() {
+        bad = Some(format!("the lexicons have {} + {} + {} records, the loaded dictionaries {} words", c.sys.rows.len(), user.rows.len(), u2.rows.len(), nwords));
+    } else if let Some(b) = lookup_route(&jd, &[(0, &c.sys), (1, user), (2, u2)]) {
+        bad = Some(b);
+    }
+    for (i, r) in u2.rows.iter().enumerate() {
+        if let Readback::Ok { pos, .. } = &rbs[i] {
+            let got = jd.grammar().pos_list.get(*pos as usize);
+            if got.map(|g| g.as_slice()) != Some(&c.pool[r.pos][..]) && bad.is_none() {
+                bad = Some(format!("word {} of the second user dictionary: part of speech {:?}, declared {:?}", i, got, c.pool[r.pos]));
+            }
+        }
+    }
+    for (i, (x, y)) in expd.iter().zip(rbs.iter()).enumerate() {
+        if x != y && bad.is_none() {
+            bad = Some(format!("word {} of the second user dictionary read back as {:?}, declared {:?}", i, y, x));
+        }
+    }
+    if verbose {
+        println!("second user csv:\n{}", c.user2_csv);
+        println!("implementation read-back (dictionary 2): {:#?}", rbs);
+        println!("declared: {:#?}", expd);
+    }
+    sink.tag("user_dictionary_2_of_a_stack");
+    if u2.rows.iter().any(|r| r.split_b.iter().any(|x| matches!(x, Ref::User(_)))) {
+        sink.tag("user_dictionary_2_with_user_ref_in_split_b");
+    }
+    let um = Matrix { nl: 0, nr: 0, lines: vec![] };
+    // POS of the second dictionary are re-based behind those the first one added
+    let pos_offset = nsys + uexp.new_pos.len();
+    let term = full_term(u2, &c.user2_fields, Some(&c.sys_fields), &um, &ub2, c.time, &c.descr, 2, nsys, pos_offset, &rbs, &[]);
+    let id = match term {
+        Some(t) => sink.case(t, desc, true),
+        None => sink.case_rust_only(desc, false),
+    };
+    if let Some(b) = bad {
+        sink.fail(id, &b, "");
     }
 }
 
@@ -1430,7 +1570,7 @@ fn malformed(sink: &mut Sink, rng: &mut Rng, n: usize) {
         let (csv, what): (String, &str) = match k % 6 {
             0 => (format!("{},0,0,1,x,名詞,普通名詞,一般,*,*,*,x,x,*,A,*,*,*,*\n", "a".repeat(32768)), "string of 32768 bytes"),
             1 => (format!("{}東,0,0,1,東,名詞,普通名詞,一般,*,*,*,x,x,*,C,{},*,*,*\n", base, vec!["0"; 128].join("/")), "128 split items"),
-            2 => (format!("{}東,0,0,1,東,名詞,普通名詞,一般,*,*,*,x,x,*,C,*,*,{},*\n", base, 1 + rng.below(100)), "word structure id out of range"),
+            2 => (format!("{}東,0,0,1,東,名詞,普通名詞,一般,*,*,*,x,x,*,C,*,*,{},*\n", base, 2 + rng.below(100)), "word structure id out of range"),
             3 => (format!("{}東,0,0,1,\\u{{110000}},名詞,普通名詞,一般,*,*,*,x,x,*,A,*,*,*,*\n", base), "escape above U+10FFFF"),
             4 => (format!("{}東,0,0,1,東,名詞,普通名詞,一般,*,*,*,x,x,*,C,\"無,名詞,普通名詞,一般,*,*,*,ム\",*,*,*\n", base), "unresolvable inline reference"),
             _ => (format!("{}東,{},0,1,東,名詞,普通名詞,一般,*,*,*,x,x,*,A,*,*,*,*\n", base, 1 + rng.below(3)), "left id outside the matrix"),
@@ -1505,7 +1645,7 @@ pub fn run(args: &Args) {
     let mut rng = Rng::new(args.seed);
     // corpus: the shipped test lexicon, compiled and read back by the implementation-side oracle only
     // (its rows are not in model vocabulary); then the generated streams
-    let n = args.n(700, 9000);
+    let n = args.n(540, 9000);
     let mut procs = 0usize;
     for k in 0..n {
         let user = k % 3 == 2;
